@@ -380,6 +380,27 @@ func mutateTemplate(segs []model.Seg, kind string, site int) (string, bool) {
 	return model.JoinSegments(s), true
 }
 
+func c10Sample(payload string) any {
+	i := strings.IndexByte(payload, 0)
+	mode, rest := payload[:i], payload[i+1:]
+	switch mode {
+	case "tree":
+		nodes, vars := decTmpl(rest)
+		return map[string]any{"template": model.PrintTemplate(nodes), "variables": vars, "reference rendering": model.RenderTemplate(nodes, vars)}
+	case "mut":
+		parts := strings.SplitN(rest, "\x00", 3)
+		site, _ := strconv.Atoi(parts[1])
+		var nodes []*model.TNode
+		json.Unmarshal([]byte(parts[2]), &nodes)
+		segs := model.PrintSegments(nodes)
+		src, _ := mutateTemplate(segs, parts[0], site)
+		return map[string]any{"malformed class": parts[0], "from": model.JoinSegments(segs), "malformed template": src}
+	}
+	lex := strings.Split(rest, " ")
+	v, why, _ := model.ClassifyLexemes(lex)
+	return map[string]any{"lexemes": lex, "template": model.JoinLexemes(lex), "classifier": v + " " + why}
+}
+
 func buildC10(cfg *mon.Config) []*mon.Sub {
 	trees := &mon.Sub{
 		Name:  "generated-trees",
@@ -396,7 +417,7 @@ func buildC10(cfg *mon.Config) []*mon.Sub {
 				emit("tree\x00" + encTmpl(nodes, g.vars(nodes)))
 			}
 		},
-		Exec: c10Exec,
+		Exec: c10Exec, Sample: c10Sample,
 		Final: func(r *mon.SubReport) string {
 			for _, k := range []string{"text", "var", "comment", "section"} {
 				if r.Tables["node-kinds-rendered"][k] == 0 {
@@ -422,7 +443,7 @@ func buildC10(cfg *mon.Config) []*mon.Sub {
 				emit("mut\x00" + mon.Pick(r, tmplMutations) + "\x00" + strconv.Itoa(r.Intn(1000)) + "\x00" + string(a))
 			}
 		},
-		Exec: c10Exec,
+		Exec: c10Exec, Sample: c10Sample,
 		Final: func(r *mon.SubReport) string {
 			for _, k := range tmplMutations {
 				if r.Tables["malformed-classes-rejected"][k] == 0 {
@@ -447,7 +468,7 @@ func buildC10(cfg *mon.Config) []*mon.Sub {
 				}
 			})
 		},
-		Exec: c10Exec,
+		Exec: c10Exec, Sample: c10Sample,
 	}
 	return []*mon.Sub{trees, mut, lex}
 }
